@@ -19,7 +19,7 @@ EXTRACT_V = """From VV Require Import Rtl.Cycle.
 Require Extraction.
 Require Import ExtrOcamlBasic.
 Extraction Language OCaml.
-Extraction "rtl_model.ml" step init_state decls_of observe topo_ok single_driver_ok is_ff gather ev.
+Extraction "rtl_model.ml" step init_state decls_of observe topo_ok single_driver_ok is_ff isupported gather ev.
 """
 
 DRIVER_ML = r"""
@@ -142,7 +142,9 @@ let compact (nv : int) (st : n -> vec) : n -> vec =
 let run_line (line : string) : string =
   toks := Array.of_list (List.filter (fun s -> s <> "") (String.split_on_char ' ' line));
   pos := 0;
-  let md = match next () with "2" -> M2 | _ -> M4 in
+  let mds = next () in
+  let md = if mds.[0] = '2' then M2 else M4 in
+  let strict = String.length mds = 1 in      (* "2" / "4": check the validated fragment; "2u" / "4u": do not *)
   let dl = rd_list decl in
   let nv = List.length dl in
   let d = decls_of dl in
@@ -155,6 +157,7 @@ let run_line (line : string) : string =
      || List.length (List.sort_uniq compare order) <> ncomb then "BAD comb order is not a permutation of the comb items"
   else if not (topo_ok comb) then "BAD comb order is not topological"
   else if not (single_driver_ok comb) then "BAD two comb items drive one variable"
+  else if strict && not (Array.for_all (isupported d) items) then "BAD outside the validated fragment (Eval.supported)"
   else begin
     let outs = rd_list num in
     let noreset = boolean () in
